@@ -94,6 +94,8 @@ type sysRemote struct {
 	KeepWait      func(ctx context.Context, tag int, cb cbI) (int, error)         // keeps the callable and stays in flight until its gate opens
 	RelayCb       func(ctx context.Context, tag int, kept int) (int, error)       // invokes the callable kept under `kept` (another link's) with THIS request's context
 	EnumPanic     func(ctx context.Context, tag int) error                        // enumerates the remotes and panics inside the enumeration callback
+	Shapes        func(ctx context.Context, tag int, f cbI, done cbE) (string, error) // two callables of different result shapes, the error-only one last
+	EchoLease     func(ctx context.Context, tag int, l Lease) (Lease, error)        // an argument whose type happens to implement context.Context
 	IterNilCtx    func(ctx context.Context, tag int, cb cbI) (string, error)      // invokes the callable from two goroutines at once, both with a nil context
 	GateFail      func(ctx context.Context, tag int, msg string) error            // waits for its gate, then returns an ordinary error
 	FailOwn       func(ctx context.Context, tag int, code int) error              // the handler's only result has an interface type of its own that embeds error
@@ -476,6 +478,28 @@ func (l *sysLocal) Spawn(ctx context.Context, tag int) (int, error) {
 	// return only once the spawned call is really in flight (its handler on the peer has started and is stalled)
 	waitUntil(func() bool { return hasInv(l.w, "Gate", tag+1) }, time.Second)
 	return tag, nil
+}
+// Lease: an ordinary serializable value whose type also has the methods of context.Context (a lease that can
+// expire): as an argument it is data like any other
+type Lease struct {
+	ID    int    `json:"id" cbor:"id"`
+	Owner string `json:"owner" cbor:"owner"`
+}
+
+func (Lease) Deadline() (time.Time, bool) { return time.Time{}, false }
+func (Lease) Done() <-chan struct{}       { return nil }
+func (Lease) Err() error                  { return nil }
+func (Lease) Value(key any) any           { return nil }
+
+func (l *sysLocal) Shapes(ctx context.Context, tag int, f cbI, done cbE) (string, error) {
+	l.inv(ctx, "Shapes", tag, nil)
+	v, err := f(ctx, 1)
+	e2 := done(ctx, 2)
+	return fmt.Sprintf("%d/%s;%s", v, errText(err), errText(e2)), nil
+}
+func (l *sysLocal) EchoLease(ctx context.Context, tag int, le Lease) (Lease, error) {
+	l.inv(ctx, "EchoLease", tag, le)
+	return le, nil
 }
 func (l *sysLocal) IterNilCtx(ctx context.Context, tag int, cb cbI) (string, error) {
 	l.inv(ctx, "IterNilCtx", tag, nil)
